@@ -718,6 +718,21 @@ def u_classic(ctx, name):
 
     env = getattr(cc, name)()
     _run_env(ctx, name, env, "classic", _tol_classic)
+    # documented non-default constructor options: whatever they do, the result must still depend on the
+    # explicit arguments only (same eagerly, under jit and vmapped, and on repetition)
+    nondefault = {"Acrobot": dict(torque_max_noise=0.3, link_mass_2=1.3), "CartPole": dict(force_mag=7.0, pole_mass=0.2),
+                  "MountainCar": dict(force=0.0013, gravity=0.002), "ContinuousMountainCar": dict(power=0.002, goal_velocity=0.01),
+                  "Pendulum": dict(g=9.0, m=1.2)}[name]
+    try:
+        env_nd = getattr(cc, name)(**nondefault)
+    except TypeError:
+        env_nd = None
+        ctx.notes["nondefault_constructor_options_not_accepted"] = sorted(nondefault)
+    if env_nd is not None:
+        p = _plan(ctx, "classic")
+        p.update(N=8, fns=["transition", "step", "reward"], disable_jit=0, batches=1, kseed=250, eager=3)
+        _run_env(ctx, f"{name}-nondefault", env_nd, "classic", _tol_classic, p)
+        ctx.monitor("nondefault_option_instances_run")
     if not ctx.quick:
         import diffrax
 
